@@ -361,12 +361,14 @@ def parse_conv(ans):
     if not m:
         return {'kind': 'bad', 'what': ans[:200]}
     rest = ans[len(head):]
+    mw = re.search(r' why=(\S*)', head)
+    why = [w for w in (mw.group(1).split(',') if mw else []) if w]
     sec = {}
     for key, nxt in (('|V|', '|D|'), ('|D|', '|R|'), ('|R|', '|O|'), ('|O|', '|C|'), ('|C|', None)):
         i = rest.index(key) + len(key)
         j = rest.index(nxt) if nxt else len(rest)
         sec[key] = rest[i:j].strip()
-    return {'kind': 'conv', 'N': int(m.group(1)), 'M': int(m.group(2)), 'shortcut': m.group(3) == '1', 'infragment': m.group(4) != '0' and m.group(5) != '0',
+    return {'kind': 'conv', 'N': int(m.group(1)), 'M': int(m.group(2)), 'shortcut': m.group(3) == '1', 'infragment': m.group(4) != '0' and m.group(5) != '0', 'why': why,
             'V': [v for v in sec['|V|'].split(';') if v], 'D': [canon_def(d) for d in sec['|D|'].split('|') if d],
             'R': [r for r in sec['|R|'].split('|') if r], 'O': sec['|O|'],
             'C': sorted(canon_row(c.strip()) for c in sec['|C|'].split(' ; ') if c.strip())}
@@ -490,7 +492,7 @@ def run_refconv(ck, drv, exe, n_models, seed_base, wd, log=None):
     import collections
     import c01
     st = {'models': 0, 'pairs': 0, 'enforced': 0, 'compared': 0, 'agree': 0, 'shortcut': 0, 'flagged_agree': 0, 'flagged_differ': 0,
-          'flagged_oracle_runs': 0, 'flagged_oracle_fail': 0, 'flagged_fail_sigs': {}, 'outside': 0, 'outside_fragment_predicate': 0, 'bad': 0,
+          'flagged_oracle_runs': 0, 'flagged_oracle_fail': 0, 'flagged_fail_sigs': {}, 'flagged_why': {}, 'outside': 0, 'outside_fragment_predicate': 0, 'bad': 0,
           'ref_refusal': 0, 'real_refusal': 0, 'refusal_agree': 0, 'disagree': 0, 'drift': 0,
           'classes': collections.Counter(), 'examples': {}, 'violations': [],
           'by_acc': {'native': [0, 0], 'linear': [0, 0]},
@@ -553,6 +555,8 @@ def run_refconv(ck, drv, exe, n_models, seed_base, wd, log=None):
                 # but the property itself is still checked on (a sample of) the pairs that differ
                 st['shortcut'] += 1
                 fs['flagged'] += 1
+                for w in (c.get('why') or ['harness-gate' if not c.get('shortcut') else 'unspecified']):
+                    st['flagged_why'][w] = st['flagged_why'].get(w, 0) + 1
                 same = (not real_ref) and not compare(c, r)
                 st['flagged_agree'] += same
                 if same:
